@@ -77,8 +77,8 @@ def productions(d, start, rng=None):
     for n in NUMS:
         for form in NUMFORMS:
             P.append(('(' + form.replace('{n}', n).replace('{x}', '({x})') + ')', 1, {'numbers'}, 1))
-    # plain numbers of other types than int / float (module-level constants of the program: complex, Fraction, numpy scalars)
-    for n in ('N_C', 'N_F', 'N_I64', 'N_F32'):
+    # plain numbers of other types than int / float (module-level constants of the program: complex, Fraction, numpy scalars; no single-precision float: it is carried with 6-7 digits through printing and ill-conditioned programs amplify that)
+    for n in ('N_C', 'N_F', 'N_I64', 'N_F64'):
         for form in ('{x} + {n}', '{n} + {x}', '{n} * {x}', '{x} - {n}', '{x} * {n}'):
             P.append(('(' + form.replace('{n}', n).replace('{x}', '({x})') + ')', 1, {'numbers', 'number-types'}, 1))
     for n in DIVNUMS:
@@ -261,7 +261,7 @@ def run_shard(shard, ctx):
                      for _ in range(unit['count'])]
         # harness-side registered callees: plain versions for the oracle, registered versions for registration
         import numpy as _np
-        consts = {'N_C': 2j, 'N_F': Fr(1, 2), 'N_I64': _np.int64(2), 'N_F32': _np.float32(0.5),
+        consts = {'N_C': 2j, 'N_F': Fr(1, 2), 'N_I64': _np.int64(2), 'N_F64': _np.float64(0.5),
                   'K_S': alg.scalar([0.123456789]), 'K_V': alg.multivector(keys=(tuple(alg.canon2bin.values())[-1],), values=[1.23456789])}
         plain_ns = dict(consts)
         exec(G1_SRC + G2_SRC + H_SRC, plain_ns)
@@ -391,8 +391,7 @@ def one_program(ctx, alg, cfg, name, prog, plain_ns, reg_ns):
         inexact = not all(is_exact(v) for v in list(got_e.values()) + list(want_e.values()))
         # float results: generated code prints non-dyadic constants with 15 digits and evaluates in another order, which an
         # ill-conditioned expression amplifies; 1e-6 relative is "to rounding" here, exact comparison otherwise
-        # a single-precision constant (N_F32) is carried with single precision through printing and evaluation: 1e-4 is "to rounding" there
-        bad = elem_diff(got_e, want_e, tol=(1e-4 if 'N_F32' in prog.expr else 1e-6) if inexact else 1e-9)
+        bad = elem_diff(got_e, want_e, tol=1e-6 if inexact else 1e-9)
         if bad and not all(is_exact(v) for v in list(got_e.values()) + list(want_e.values())):
             # floats are involved (float literal, sqrt family, 1/k! constants): a symbolically expanded high-degree expression can
             # differ from the step-by-step evaluation by cancellation error alone. Decide by re-evaluating both sides with
